@@ -21,7 +21,12 @@
 (*     <sinful> # bday # seq # [ name = value ; ... ] secret               *)
 (*                                                                         *)
 (* One behaviour = one configuration (chosen in Init) taken through        *)
-(*     Mint -> Import -> ImportFT -> Connect(claim) -> Connect(filetrans). *)
+(*     Mint -> Import -> ImportFT -> Connect(claim) -> Connect(filetrans)  *)
+(*     -> ConnectByCommand for every listed command, from either end.      *)
+(* Both ends also file the session in their COMMAND MAP under every        *)
+(* command listed in the policy (mapClaimCommands), so that a dial for a   *)
+(* listed command - naming only the command and the peer, no session id -  *)
+(* finds the claim session and resumes it instead of negotiating afresh.   *)
 (* Cryptography is symbolic: Kdf(secret) is a term; two keys are equal iff *)
 (* derived from the same secret text with the same salt/info.              *)
 (* Using the session must not change it: every resumed connection calls    *)
@@ -41,7 +46,10 @@ CONSTANTS
 AddrShapes  == <<"plain", "params", "hash", "ipv6", "sharedport">>
 Bools       == <<TRUE, FALSE>>
 CipherLists == << <<"AES">>, <<"AES", "BLOWFISH">>, <<"AESGCM", "BLOWFISH", "3DES">> >>
-CmdLists    == << << >>, <<"c442">>, <<"c443", "c444", "c60010">> >>
+\* command lists, with the boundary command integers: 0 (UPDATE_STARTD_AD is a
+\* legitimate command), 1, the largest 32-bit value, a repeated entry
+CmdLists    == << << >>, <<"c442">>, <<"c443", "c444", "c60010">>, <<"c0">>,
+                  <<"c0", "c1", "c2147483647", "c1">> >>
 Lifetimes   == <<0, 3600, 34560000>>          \* none, one hour, 400 days (seconds)
 VerForms    == <<"none", "short", "long">>
 Dirs        == <<"importerDials", "minterDials">>
@@ -51,7 +59,7 @@ Cfg(a, e, i, c, m, l, v, d) ==
 
 AllConfigs ==
   { Cfg(AddrShapes[a], Bools[e], Bools[i], CipherLists[c], CmdLists[m], Lifetimes[l], VerForms[v], Dirs[d]) :
-      a \in 1..5, e \in 1..2, i \in 1..2, c \in 1..3, m \in 1..3, l \in 1..3, v \in 1..3, d \in 1..2 }
+      a \in 1..5, e \in 1..2, i \in 1..2, c \in 1..3, m \in 1..5, l \in 1..3, v \in 1..3, d \in 1..2 }
 
 \* pairwise cover: orthogonal array OA(49, 8, 7, 2) - column k of row (i, j) is
 \* (i + k*j) mod 7 for k = 0..6 and j for the last column - with each column
@@ -59,7 +67,7 @@ AllConfigs ==
 Fold(x, n) == ((x % 7) % n) + 1
 Row(i, j) ==
   Cfg(AddrShapes[Fold(i, 5)], Bools[Fold(i + j, 2)], Bools[Fold(i + (2 * j), 2)],
-      CipherLists[Fold(i + (3 * j), 3)], CmdLists[Fold(i + (4 * j), 3)],
+      CipherLists[Fold(i + (3 * j), 3)], CmdLists[Fold(i + (4 * j), 5)],
       Lifetimes[Fold(i + (5 * j), 3)], VerForms[Fold(i + (6 * j), 3)], Dirs[(j % 2) + 1])
 
 Pairwise == { Row(i, j) : i \in 0..6, j \in 0..6 }
@@ -67,7 +75,7 @@ Pairwise == { Row(i, j) : i \in 0..6, j \in 0..6 }
 \* every combination of the dimensions that shape the TEXT of the claim id
 GrammarEdges ==
   { Cfg(AddrShapes[a], TRUE, TRUE, CipherLists[c], CmdLists[m], 3600, VerForms[v], Dirs[((a + c + m + v) % 2) + 1]) :
-      a \in 1..5, c \in 1..3, m \in 1..3, v \in 1..3 }
+      a \in 1..5, c \in 1..3, m \in 1..5, v \in 1..3 }
   \cup { Cfg(AddrShapes[a], Bools[e], Bools[e], <<"AES">>, << >>, Lifetimes[l], "none", Dirs[d]) :
       a \in 1..5, e \in 1..2, l \in 1..3, d \in 1..2 }
 
@@ -180,9 +188,11 @@ VARIABLES
   public,       \* its loggable form
   eA, eB,       \* the claim session's cache entry at the minter / importer (or NoEntry)
   fA, fB,       \* the derived file-transfer session's entries
-  results       \* outcomes of the connections
+  mA, mB,       \* command maps: the commands each end filed the claim session under
+  results,      \* outcomes of the connections naming the session id
+  todo, cmdres  \* connections by command still to make (<<cmd, dir>>), and their outcomes
 
-vars == <<cfg, rel, phase, claim, public, eA, eB, fA, fB, results>>
+vars == <<cfg, rel, phase, claim, public, eA, eB, fA, fB, mA, mB, results, todo, cmdres>>
 
 Now == 1000000       \* the virtual time of minting
 Minted == "secret-minted"
@@ -191,13 +201,33 @@ NoPolicy == [enc |-> "absent", integ |-> "absent", ciphers |-> << >>, cmds |-> <
 NoEntry == [sid |-> << >>, key |-> << >>, policy |-> NoPolicy, expiry |-> "never", lease |-> 0, user |-> "none"]
 Later == Now + 7     \* the virtual time of the connections
 
+RECURSIVE Dedup(_)
+Dedup(q) ==
+  IF q = << >> THEN << >>
+  ELSE LET r == Dedup(SubSeq(q, 1, Len(q) - 1)) x == q[Len(q)]
+       IN IF \E k \in 1..Len(r) : r[k] = x THEN r ELSE Append(r, x)
+
+\* every listed command from both ends when the importer holds the secret;
+\* with a corrupted secret one such connection (it must not work)
+Todo(c, r) ==
+  LET d == Dedup(c.cmds) IN
+  IF r = "same"
+  THEN [k \in 1..(2 * Len(d)) |-> << d[(k + 1) \div 2], IF (k % 2) = 1 THEN "importerDials" ELSE "minterDials" >>]
+  ELSE IF Len(d) = 0 THEN << >> ELSE << << d[1], c.dir >> >>
+
+\* mapClaimCommands: one command-map entry per command listed in the policy
+Range(q) == {q[k] : k \in 1..Len(q)}
+MapOf(policy) == Range(policy.cmds) \ (IF "ZeroCommandUnmapped" \in Bug THEN {"c0"} ELSE {})
+
 Init ==
   /\ cfg \in Configs
   /\ rel \in SecretRels
   /\ phase = "init"
   /\ claim = << >> /\ public = << >>
   /\ eA = NoEntry /\ eB = NoEntry /\ fA = NoEntry /\ fB = NoEntry
+  /\ mA = {} /\ mB = {}
   /\ results = << >>
+  /\ todo = Todo(cfg, rel) /\ cmdres = << >>
 
 \* MintClaimSession: render the policy, assemble the claim id, and register the
 \* session from a RE-IMPORT of the rendered policy (so both ends build it from the same text)
@@ -213,8 +243,9 @@ Mint ==
                   \* a claim session's expiry is fixed by the claim id: no lease
                   lease |-> IF "MinterLeaseRenews" \in Bug THEN cfg.life ELSE 0,
                   user |-> "submit-side"]
+        /\ mA' = MapOf(q)
   /\ phase' = "minted"
-  /\ UNCHANGED <<cfg, rel, eB, fA, fB, results>>
+  /\ UNCHANGED <<cfg, rel, eB, fA, fB, mB, results, todo, cmdres>>
 
 \* the text the importer holds: the claim id, possibly with one character of the secret changed
 Held == IF rel = "same" THEN claim ELSE SubSeq(claim, 1, Len(claim) - 1) \o << Other >>
@@ -224,11 +255,12 @@ Import ==
   /\ phase = "minted"
   /\ LET pc == ParseClaim(Held)
          q  == ImportInfo(pc.info)
-     IN eB' = IF pc.sid = << >> \/ pc.key = << >> THEN NoEntry
-              ELSE [sid |-> pc.sid, key |-> Kdf(pc.key, "importer"), policy |-> q,
-                    expiry |-> q.expires, lease |-> 0, user |-> "execute-side"]
+     IN /\ eB' = IF pc.sid = << >> \/ pc.key = << >> THEN NoEntry
+                 ELSE [sid |-> pc.sid, key |-> Kdf(pc.key, "importer"), policy |-> q,
+                       expiry |-> q.expires, lease |-> 0, user |-> "execute-side"]
+        /\ mB' = IF pc.sid = << >> \/ pc.key = << >> THEN {} ELSE MapOf(q)
   /\ phase' = "imported"
-  /\ UNCHANGED <<cfg, rel, claim, public, eA, fA, fB, results>>
+  /\ UNCHANGED <<cfg, rel, claim, public, eA, fA, fB, mA, results, todo, cmdres>>
 
 \* ImportFileTransferSession on both ends: id = "filetrans." + session id, the SAME
 \* secret, the importer's own fixed policy
@@ -243,7 +275,7 @@ ImportFT ==
                  ELSE [sid |-> <<"filetrans.">> \o pb.sid, key |-> Kdf(pb.key, "importer"), policy |-> FtPolicy,
                        expiry |-> "never", lease |-> 0, user |-> "execute-side"]
   /\ phase' = "ftimported"
-  /\ UNCHANGED <<cfg, rel, claim, public, eA, eB, results>>
+  /\ UNCHANGED <<cfg, rel, claim, public, eA, eB, mA, mB, results, todo, cmdres>>
 
 \* a connection naming the session explicitly: the dialling end looks the id up
 \* in its own cache, the listening end in its; it resumes iff both know the id,
@@ -273,9 +305,28 @@ Connect(which) ==
            ELSE /\ fA' = (IF o.found THEN Renew(fA) ELSE fA)
                 /\ fB' = (IF o.found THEN Renew(fB) ELSE fB)
                 /\ UNCHANGED <<eA, eB>>
-  /\ UNCHANGED <<cfg, rel, claim, public>>
+  /\ UNCHANGED <<cfg, rel, claim, public, mA, mB, todo, cmdres>>
 
-Next == Mint \/ Import \/ ImportFT \/ Connect("claim") \/ Connect("filetrans")
+\* a dial that names only the command and the peer (ClientHandshake without
+\* SessionID): the dialling end looks the command up in its command map; a hit
+\* resumes the claim session exactly as above, a miss negotiates a fresh session
+ConnectByCommand ==
+  /\ phase = "done" /\ todo # << >>
+  /\ LET cmd == todo[1][1]
+         dir == todo[1][2]
+         cl  == IF dir = "importerDials" THEN eB ELSE eA
+         sv  == IF dir = "importerDials" THEN eA ELSE eB
+         cm  == IF dir = "importerDials" THEN mB ELSE mA
+         hit == cmd \in cm /\ cl.sid # << >>
+         fnd == hit /\ sv.sid = cl.sid
+     IN /\ cmdres' = Append(cmdres, [cmd |-> cmd, dir |-> dir, mapped |-> hit, found |-> fnd,
+                                     works |-> fnd /\ sv.key = cl.key, peer |-> sv.user])
+        /\ eA' = (IF fnd THEN Renew(eA) ELSE eA)
+        /\ eB' = (IF fnd THEN Renew(eB) ELSE eB)
+  /\ todo' = Tail(todo)
+  /\ UNCHANGED <<cfg, rel, phase, claim, public, fA, fB, mA, mB, results>>
+
+Next == Mint \/ Import \/ ImportFT \/ Connect("claim") \/ Connect("filetrans") \/ ConnectByCommand
 
 Spec == Init /\ [][Next]_vars
 
@@ -304,8 +355,17 @@ SameSession ==
 ResumesBothWays ==
   rel = "same" => \A k \in DOMAIN results : results[k].found /\ results[k].works
 
+\* the session is filed under EVERY listed command at both ends, and a dial for a
+\* listed command from either end resumes it (no fresh handshake)
+ResumesByCommand ==
+  rel = "same" =>
+    /\ After("minted") => mA = Range(cfg.cmds)
+    /\ After("imported") => mB = Range(cfg.cmds)
+    /\ \A k \in DOMAIN cmdres : cmdres[k].mapped /\ cmdres[k].found /\ cmdres[k].works
+
 WrongSecretFails ==
-  rel = "diff" => \A k \in DOMAIN results : ~results[k].works
+  rel = "diff" => /\ \A k \in DOMAIN results : ~results[k].works
+                  /\ \A k \in DOMAIN cmdres : ~cmdres[k].works
 
 PublicFormHidesSecret ==
   After("minted") => \A k \in DOMAIN public : public[k] # Minted
